@@ -712,6 +712,8 @@ def reify_node(n: Any, owner: dict[int, Any], tname: str) -> tuple:
         return ("NTablerow", tk, reify_expr(n.expression), R(n.block))
     if c is A.BlockNode:
         return ("WBlock", tk, [R(x) for x in n.nodes])
+    if c.__name__ == "LoopBlockNode" and c.__module__ == "liquid2.builtin.tags.for_tag":
+        return ("WLoopBlock", tk, [str(i) for i in n.block_scope()], [R(x) for x in n.nodes])
     if c is A.ConditionalBlockNode:
         return ("WCond", tk, reify_expr(n.expression), R(n.block))
     if c is case_tag.MultiExpressionBlockNode:
@@ -1266,6 +1268,8 @@ def c_node(n: tuple) -> str:
         return f"(NTablerow {t} {c_expr(n[2])} {N(n[3])})"
     if k == "WBlock":
         return f"(WBlock {t} {NL(n[2])})"
+    if k == "WLoopBlock":
+        return f"(WLoopBlock {t} {C.clist([C.cstr(x) for x in n[2]], 'str')} {NL(n[3])})"
     if k in ("WCond", "WMulti"):
         return f"({k} {t} {c_expr(n[2])} {N(n[3])})"
     raise AssertionError(k)
@@ -1646,6 +1650,8 @@ def root_contexts(eng: Engine) -> dict[tuple[int, int], dict[str, Any]]:
                 c = {**ctx, "macro": True}
             elif k == "NBlock" and i == 4:
                 c = {**ctx, "block": True}
+            elif k == "NCapture" and i == 3:
+                c = {**ctx, "capture_of": ctx["capture_of"] + (n[2][0],)}
             if is_node(x):
                 nd(x, c)
             elif isinstance(x, list) and x and all(is_node(y) for y in x):
@@ -1655,17 +1661,18 @@ def root_contexts(eng: Engine) -> dict[tuple[int, int], dict[str, Any]]:
                 ex(x, c)
 
     for n in eng.reified.get(eng.root, []):
-        nd(n, {"else_of": frozenset(), "macro": False, "block": False})
+        nd(n, {"else_of": frozenset(), "macro": False, "block": False, "capture_of": ()})
     return out
 
 
-def assignable_names(eng: Engine) -> set[str]:
-    out: set[str] = set()
+def assignable_names(eng: Engine) -> dict[str, int]:
+    """name -> number of assign / capture / increment / decrement tags that bind it."""
+    out: dict[str, int] = {}
 
     def walk(x: Any) -> None:
         if isinstance(x, tuple):
             if x and x[0] in ("NAssign", "NCapture", "NIncrement", "NDecrement"):
-                out.add(x[2][0])
+                out[x[2][0]] = out.get(x[2][0], 0) + 1
             for y in x:
                 walk(y)
         elif isinstance(x, list):
@@ -1694,9 +1701,17 @@ def occurrence_findings(eng: Engine, a: dict[str, Any], run: dict[str, Any]) -> 
         if not (e[0] == "L" and i + 1 < len(evs) and evs[i + 1][:2] == ("G", e[1])):
             continue
         x, loc = e[1], eng.tok_owner.get(e[2])
-        if loc is None or loc[0] != eng.root or x in assignable or (x, loc) in glob_locs:
+        if loc is None or loc[0] != eng.root or (x, loc) in glob_locs:
             continue
         ctx = ctxs.get((loc[1], loc[2]), {})
+        if x in assignable:
+            # the only tags that could have assigned x are captures that are still being
+            # rendered at this point: x is not assigned yet, whatever the data
+            if assignable[x] == ctx.get("capture_of", ()).count(x):
+                out.append(("capture-reads-own-name",
+                            f"{x!r} in template {loc[0]!r} at {loc[1]}..{loc[2]}, inside the capture block that assigns it, was read "
+                            "from the global namespace but is not reported as a global there", {"name": x, "location": loc}))
+            continue
         if x in ctx.get("else_of", ()):
             sig, why = "for-else-sees-loop-variable", "it is in the else block of the for tag that binds it"
         elif ctx.get("macro"):
@@ -1867,6 +1882,81 @@ def fs_history_findings() -> list[tuple[str, str, dict]]:
 
 
 # ---------------------------------------------------------------------------
+# 5c. translate (outside the Coq model: engine oracle only)
+
+def gen_translate_program(r: Any) -> dict[str, str]:
+    g = Gen(r, partials=[])
+    out = []
+    for _ in range(r.randint(1, 3)):
+        args = []
+        for name in r.sample(["context", "count", "who", "x"], r.randint(0, 3)):
+            val = {"context": r.choice(["'c'", g.path(0), "greeting"]), "count": r.choice(["1", "2", "n", g.path(0)])}.get(name, g.primitive(0))
+            args.append(f"{name}: {val}")
+        mv = lambda: "{{ " + r.choice(["context", "count", "who", "x", "you", r.choice(GLOBALS)]) + " }}"  # noqa: E731
+        body = "Hello " + " ".join(mv() for _ in range(r.randint(0, 3)))
+        if r.random() < 0.4:
+            body += "{% plural %}Hellos " + " ".join(mv() for _ in range(r.randint(0, 2)))
+        tag = "{% translate " + ", ".join(args) + " %}" + body + "{% endtranslate %}"
+        k = r.random()
+        if k < 0.2:
+            tag = "{% if " + g.path(0) + " %}" + tag + "{% endif %}"
+        elif k < 0.3:
+            tag = "{% assign context = 1 %}" + tag
+        elif k < 0.4:
+            tag = "{% for context in l %}" + tag + "{% endfor %}"
+        out.append(tag)
+    return {"main": "".join(out)}
+
+
+def translate_findings(eng: Engine, a: dict[str, Any], run: dict[str, Any]) -> list[tuple[str, str, dict]]:
+    """Message variables and arguments of translate tags: what the render reads from the
+    global namespace must be reported as a global unless the program can bind it."""
+    from liquid2.context import RenderContext
+    t = eng.main()
+    sc = RenderContext(t)
+    tnodes: list[Any] = []
+
+    def walk(n: Any) -> None:
+        if type(n).__name__ == "TranslateNode":
+            tnodes.append(n)
+        for c in n.children(sc, include_partials=False):
+            walk(c)
+
+    bound: set[str] = set()
+
+    def binders(n: Any) -> None:
+        bound.update(str(i) for i in n.template_scope())
+        if type(n).__name__ != "TranslateNode":
+            bound.update(str(i) for i in n.block_scope())
+        for c in n.children(sc, include_partials=False):
+            binders(c)
+
+    for n in t.nodes:
+        walk(n)
+        binders(n)
+    msg_vars = {v for n in tnodes for b in (n.singular_block, n.plural_block) if b for v in b.vars}
+    for n in tnodes:   # arguments stay in the message namespace, except the context argument
+        bound.update(k for k in n.args if k != n.message_context_var)
+    globs = {k for k, _ in a["globals"]}
+    out: list[tuple[str, str, dict]] = []
+    evs = run["events"]
+    for i, e in enumerate(evs):
+        if e[0] in ("R", "L") and i + 1 < len(evs) and evs[i + 1][:2] == ("G", e[1]):
+            x = e[1]
+            if x in globs or x in bound or (e[0] == "R" and x not in msg_vars):
+                continue
+            if e[0] == "R" and any(x == n.message_context_var and x in n.args for n in tnodes):
+                out.append(("translate-context-arg-treated-as-bound",
+                            f"message variable {x!r} of a translate tag with a {x} argument was read from the global namespace "
+                            "(the argument is taken out of the namespace before the message is formatted); analyze().globals does not list it",
+                            {"name": x}))
+            else:
+                out.append(("global-unreported", f"render read {x!r} from the global namespace, the program never binds it, "
+                            "analyze().globals does not list it", {"name": x}))
+    return out
+
+
+# ---------------------------------------------------------------------------
 # 6. Recorded witnesses of known findings (re-observed on every run)
 
 WITNESSES = [
@@ -1877,6 +1967,8 @@ WITNESSES = [
     ("implicit-context-lookup", {"main": "{% translate %}Hello{% endtranslate %}"}, {"z": 1}),
     ("implicit-context-lookup", {"main": "{{ 1 | money }}"}, {"z": 1}),
     ("for-else-sees-loop-variable", {"main": "{% for x in l %}{{ x }}{% else %}{{ x }}{{ forloop }}{% endfor %}"}, {"l": [], "x": 1, "forloop": 2}),
+    ("capture-reads-own-name", {"main": "{% capture x %}[{{ x }}]{% endcapture %}{{ x }}"}, {"x": 1}),
+    ("translate-context-arg-treated-as-bound", {"main": "{% translate context: 'c', who: w %}Hello {{ who }} {{ context }}{% endtranslate %}"}, {"context": 1, "w": 2}),
     ("macro-body-sees-definition-scope", {"main": "{% for x in l %}{% macro m %}{{ x }}{% endmacro %}{% call m %}{% endfor %}"}, {"l": [1], "x": 1}),
     ("block-body-sees-definition-scope", {"main": "{% extends 'base' %}{% with x: 1 %}{% block b %}{{ x }}{% endblock %}{% endwith %}",
                                           "base": "{% block b %}{% endblock %}"}, {"x": 1}),
@@ -1930,7 +2022,7 @@ NOT_TAG_CLASSES = ("ContentNode", "CommentNode", "OutputNode", "ConditionalBlock
 
 def _is_wrapper_block(n: Any) -> bool:
     import liquid2.ast as A
-    return type(n) is A.BlockNode
+    return isinstance(n, A.BlockNode)
 
 
 MODELLED_ERRORS = ("DisabledTagError", "RequiredBlockError", "TemplateInheritanceError")
@@ -1965,6 +2057,11 @@ def observe_witness(sig: str, templates: dict[str, str], data: dict[str, Any]) -
             if e[0] == "G" and i and evs[i - 1][:2] == ("R", e[1]) and e[1] not in globs:
                 return f"{templates['main']!r} reads {e[1]!r} from the global namespace (RenderContext.resolve); not reported by analyze()"
         return None
+    if sig == "translate-context-arg-treated-as-bound":
+        for s_, what, _ in translate_findings(eng, a, run):
+            if s_ == sig:
+                return f"{templates[root]!r}: {what}"
+        return None
     found = usage_findings(eng, a, run, bound_names(eng)) + occurrence_findings(eng, a, run)
     if sig == "seen-ignores-loader-tag":
         for s, what, info in found:
@@ -1992,6 +2089,27 @@ def main(chk: C.Check, build: C.Build) -> None:
 
     for sig, what, info in fs_history_findings():
         chk.finding(sig, what, {**info, "how": "harness/c11.py fs_history_findings"})
+
+    # ---- translate tags (engine oracle only)
+    n_translate = 0
+    for _ in range(200 if thorough else 30):
+        tp = gen_translate_program(r)
+        try:
+            teng = Engine(tp)
+            teng.main()
+        except Exception:  # noqa: BLE001
+            continue
+        st = run_static(teng)
+        if st["sync"] != st["async"]:
+            chk.finding("async-analysis-differs", "analyze_async() and analyze() return different results", {"templates": tp})
+        if st["sync"][0] != "ok":
+            continue
+        n_translate += 1
+        for mode in ("true", "false", "mix"):
+            d = gen_data(r, mode) | {"n": 2, "greeting": "g", "you": "y", "context": "C", "count": 3, "who": "w"}
+            run = run_render(teng, d)
+            for sig, what, info in translate_findings(teng, st["sync"][1], run):
+                chk.finding(sig, what, {"templates": tp, "data": d, **info, "how": "harness/c11.py translate_findings"})
 
     # ---- programs
     programs: list[tuple[dict[str, str], bool]] = [(p, True) for p in CORPUS]
@@ -2162,7 +2280,7 @@ def main(chk: C.Check, build: C.Build) -> None:
                  "with 6 data sets (all truthy / all falsy+empty lists / mixed; the first 3-4 completed renders are also replayed on the model); non-trivial = a program whose renders produced "
                  "context lookups or filter calls and rendered at least two distinct tag nodes"),
         "samples": samples,
-        "distribution": stats,
+        "distribution": {**stats, "translate_programs": n_translate},
         "exhaustive": False,
         "tier_proved": "model of the analysis visitor and of a tracing interpreter for the fragment (all programs, loaders, oracles)",
     })
